@@ -7,6 +7,7 @@ import (
 	"sort"
 	"strconv"
 	"strings"
+	"sync"
 	"time"
 )
 
@@ -136,8 +137,10 @@ func NewUnits(baseUnit *UnitDefinition, multipliers map[int64]*UnitDefinition) *
 }
 
 type UnitsDefinition struct {
-	BaseUnitValue          *UnitDefinition           `json:"base_unit"`
-	MultipliersValue       map[int64]*UnitDefinition `json:"multipliers"`
+	BaseUnitValue    *UnitDefinition           `json:"base_unit"`
+	MultipliersValue map[int64]*UnitDefinition `json:"multipliers"`
+	// cacheMutex guards the lazily built caches below; unit definitions are shared between goroutines.
+	cacheMutex             sync.Mutex
 	sortedMultipliersCache []int64
 	reCache                *regexp.Regexp
 	reSubExpNames          map[string]int
@@ -216,6 +219,13 @@ func (u *UnitsDefinition) FormatLongFloat(data float64) string {
 }
 
 func (u *UnitsDefinition) getSortedMultipliersCache() []int64 {
+	u.cacheMutex.Lock()
+	defer u.cacheMutex.Unlock()
+	return u.getSortedMultipliersCacheLocked()
+}
+
+// getSortedMultipliersCacheLocked must be called with cacheMutex held.
+func (u *UnitsDefinition) getSortedMultipliersCacheLocked() []int64 {
 	if u.sortedMultipliersCache == nil {
 		var multipliers []int64
 		for multiplier := range u.MultipliersValue {
@@ -236,10 +246,13 @@ func (u *UnitsDefinition) parse(data string) (any, error) {
 			Message: "Empty string cannot be parsed as " + u.BaseUnitValue.NameLongPlural(),
 		}
 	}
+	u.cacheMutex.Lock()
 	if u.reCache == nil {
 		u.updateReCache()
 	}
-	match := u.reCache.FindStringSubmatch(data)
+	reCache, reSubExpNames := u.reCache, u.reSubExpNames
+	u.cacheMutex.Unlock()
+	match := reCache.FindStringSubmatch(data)
 	if match == nil {
 		return u.buildUnitParseError(data)
 	}
@@ -249,7 +262,7 @@ func (u *UnitsDefinition) parse(data string) (any, error) {
 	var intNumber int64
 	var err error
 	for _, multiplier := range u.getSortedMultipliersCache() {
-		matchGroupID := u.reSubExpNames[fmt.Sprintf("g%d", multiplier)]
+		matchGroupID := reSubExpNames[fmt.Sprintf("g%d", multiplier)]
 		result := match[matchGroupID]
 
 		intNumber, floatNumber, isFloat, err = u.handleParseMultiplier(
@@ -263,7 +276,7 @@ func (u *UnitsDefinition) parse(data string) (any, error) {
 			return 0, err
 		}
 	}
-	baseMatchGroup := match[u.reSubExpNames["g1"]]
+	baseMatchGroup := match[reSubExpNames["g1"]]
 	intNumber, floatNumber, isFloat, err = u.handleParseMultiplier(
 		baseMatchGroup,
 		1,
@@ -314,10 +327,11 @@ func (u *UnitsDefinition) handleParseMultiplier(
 	return intNumber, floatNumber, isFloat, nil
 }
 
+// updateReCache must be called with cacheMutex held.
 func (u *UnitsDefinition) updateReCache() {
 	var parts []string
 	if u.MultipliersValue != nil {
-		for _, multiplier := range u.getSortedMultipliersCache() {
+		for _, multiplier := range u.getSortedMultipliersCacheLocked() {
 			unit := u.MultipliersValue[multiplier]
 			parts = append(parts, fmt.Sprintf(
 				"(?:|(?P<g%s>[0-9]+)\\s*(%s|%s|%s|%s))",
